@@ -961,7 +961,29 @@ impl Domain for D {
         Box::new(R { ctx: None })
     }
 
+    /// The request lines are generated section by section (`gen_sections`) and then shuffled
+    /// (seeded), so that the expensive lines (hash sweeps, long inputs) spread evenly over the
+    /// contiguous shards the check cuts the file into; the domain is stateless, order is irrelevant.
     fn gen(&self, tier: &str, seed: u64, w: &mut dyn Write) {
+        let mut buf: Vec<u8> = Vec::new();
+        self.gen_sections(tier, seed, &mut buf);
+        let text = String::from_utf8(buf).expect("utf8");
+        let mut lines: Vec<&str> = text.lines().filter(|l| !l.trim().is_empty()).collect();
+        let fixed = 10.min(lines.len());
+        let mut rng = Rng::new(seed ^ 0x73687566);
+        let n = lines.len();
+        for i in (fixed + 1..n).rev() {
+            let j = fixed + rng.below((i - fixed + 1) as u64) as usize;
+            lines.swap(i, j);
+        }
+        for l in lines {
+            writeln!(w, "{}", l).unwrap();
+        }
+    }
+}
+
+impl D {
+    fn gen_sections(&self, tier: &str, seed: u64, w: &mut dyn Write) {
         let mut rng = Rng::new(seed ^ 0x68756666);
         let thorough = tier == "thorough";
         let search = tier == "search";
